@@ -268,15 +268,17 @@ pub struct UnassignedJob {
 
 /// Specifies a type of violation.
 #[derive(Clone, Deserialize, Serialize, Eq, PartialEq, Debug)]
-#[serde(rename_all = "camelCase")]
+#[serde(rename_all = "camelCase", rename_all_fields = "camelCase")]
 #[serde(tag = "type")]
 pub enum Violation {
     /// A break assignment violation.
     #[serde(rename(deserialize = "break", serialize = "break"))]
     Break {
         /// An id of a vehicle break belong to.
+        #[serde(alias = "vehicle_id")]
         vehicle_id: String,
         /// Index of the shift.
+        #[serde(alias = "shift_index")]
         shift_index: usize,
     },
 }
